@@ -340,3 +340,4 @@ H("C03", "css/selector", "VxH_C05_spec", reach=["done"], bounds="selector specif
 H("C15", "html/document", "VxH_C16_paint", reach=["laid-out", "drawn"], bounds="html > body > (section, article > nav, aside), unique background / border / outline colours; section {static,relative} x {z auto,-1,1} x {opaque,translucent}; article {static,relative} x {z auto,1} x {float none,left}; aside {static,relative} x {z auto,-1,0,1} (thorough: x translucent)", quick={"maxsteps": 200000000, "time": "800s", "shards": 8}, thorough={"maxsteps": 200000000, "shards": 14})
 H("C04", "html/tree", "VxH_C04_initial_computed", reach=["computed", "recomputed"], bounds="the 18 properties whose initial value needs computing x {root, child}, with solid border / outline / column-rule styles and float: left in force")
 H("C07", "css/validation", "VxH_C07_gradients", reach=["validated", "accepted"], bounds="4 gradient functions x 2 (thorough 4) properties x first argument of 0..4 values over 6 kinds (thorough 13: direction / shape keywords, 45deg, 1px, 10%, 0), then two colour stops", quick={"shards": 6}, thorough={"shards": 14, "maxpaths": 4000000})
+H("C12", "html/layout", "VxH_C12_named_pages", reach=["laid-out", "same-page-name", "page-name-changes"], bounds="two sections each holding one 10px block with page: auto / a / b; a float or absolutely positioned box optionally ending the first section and starting the second; @page a and @page b with their own sizes", quick={"maxsteps": 100000000, "shards": 6})
